@@ -32,6 +32,11 @@ def check(run):
         if o.rule == 'C03-CLASS':
             o.rule = 'C13-CLASS'
     run.floors = [(('C13-CLASS' if r == 'C03-CLASS' else r), c, m) for r, c, m in run.floors]
+    from .common import observed_rule
+    n = observed_rule(run, 'C13-OBSERVED', p, [f for f in p.funcs.values() if f.mod.name == 'tdda.rexpy.rexpy' and f.cls is None],
+                      'every example handed to the extractor is a value that is present: an expression learnt from a categorical '
+                      'column\'s unused declared level (.cat.categories, unfiltered value_counts()) matches none of the examples')
+    run.floor('C13-OBSERVED', n, 8)
 
 
 def anchor(run, p):
